@@ -2,6 +2,7 @@ package h
 
 import (
 	"sort"
+	"sync"
 )
 
 // Model: the last validated observation of every key of every collection, plus the per-key
@@ -12,6 +13,7 @@ type Model struct {
 	AllCas    map[uint64]bool // every CAS ever observed anywhere in this world
 	MaxCas    uint64
 	MaxIssued uint64 // highest CAS handed out by the regular write API (excludes caller-supplied *WithMeta CAS)
+	mu        sync.Mutex
 }
 
 type CollModel struct {
@@ -41,6 +43,10 @@ func NewModel(ncoll int) *Model {
 }
 
 func (m *Model) Info(c int, key string) *KeyInfo {
+	// (concurrent lanes of a script resolve their symbolic arguments against the model: the lazy
+	// insert must not race with another lane's lookup)
+	m.mu.Lock()
+	defer m.mu.Unlock()
 	ki := m.Colls[c].Docs[key]
 	if ki == nil {
 		ki = &KeyInfo{XNames: map[string]bool{}, Writers: map[string]bool{}, Deletes: map[string]bool{}, Resurrects: map[string]bool{}}
